@@ -465,7 +465,7 @@ def run_script(job, hashseed):
     return {"out": json.loads(p.stdout)}
 
 
-def rich_schema(rng):
+def rich_schema(rng, long_names=None):
     """a valid 'fleet' schema: several enums, CAN structs spread over several buses and several devices per bus,
     signal blocks, services with several methods, device declarations — everything a generator might collect in a
     set or a dict before printing it"""
@@ -485,6 +485,9 @@ def rich_schema(rng):
         ebits[f"En{k}"] = max(1, mx.bit_length())
     structs = []
     nfields = {}
+    nested = rng.random() < 0.4
+    if nested:
+        out.append("struct Inner {\n    p @ 0: u8,\n    q @ 1: i8,\n}")
     for k in range(rng.randint(3, 7)):
         fields, bits = [], 0
         for j in range(rng.randint(1, 4)):
@@ -499,6 +502,8 @@ def rich_schema(rng):
             fields.append(f"    f{j} @ {j}: {t},")
         if not fields:
             fields = ["    f0 @ 0: u8,"]
+        if nested and bits + 16 <= 64 and rng.random() < 0.5:
+            fields.append("    g @ 9: Inner,")  # leaves g::p, g::q: flattened hierarchical names
         out.append(f"struct M{k} {{\n" + "\n".join(fields) + "\n}")
         structs.append(f"M{k}")
         nfields[f"M{k}"] = len(fields)
@@ -534,7 +539,14 @@ def rich_schema(rng):
             sv = rng.sample(svcs, rng.randint(0, len(svcs)))
             body = f"    services: [{', '.join(sv)}],\n" if sv else "    address: 1,\n"
             out.append(f"device {dname} {{\n{body}}}")
-    return 'version: "3"\n\n' + "\n".join(out) + "\n"
+    text = 'version: "3"\n\n' + "\n".join(out) + "\n"
+    if (rng.random() < 0.35) if long_names is None else long_names:
+        # long identifiers (message + signal names well beyond the 31 / 63 significant characters of C): whatever a
+        # generator does to such names must not depend on the process
+        text = re.sub(r"\bM(\d)\b", r"M\1InverterPhaseCurrentMeasurementStatus", text)
+        text = re.sub(r"\bf(\d)\b", r"f\1_instantaneous_peak_value_of_the_phase_current", text)
+        text = re.sub(r"\b([pqg])\b(?= @)", r"\1_filtered_measurement_block_of_channel", text)
+    return text
 
 
 def as_files(text):
@@ -553,7 +565,7 @@ def det_schemas(rng, n):
     out = []
     for k in range(n):
         if k % 2 == 1:
-            out.append(rich_schema(rng))
+            out.append(rich_schema(rng, long_names=(k % 4 == 1)))
             continue
         text, _ = gen_case(rng)
         # only valid schemas: drop poison by regenerating from GOOD subsets
